@@ -24,25 +24,24 @@ Context {CC : Type} (cci : cc_iface CC).
 Notation vsock := (vsock CC).
 Notation step := (@step CC).
 
-Lemma devs_plain err evs p (s : vsock) p' s' :
+Lemma devs_plain ib err evs p (s : vsock) p' s' :
   dview_of p' s' = drun (dview_of p s) evs -> Forall (fun e => plainb e = true) evs ->
   v_inbox s' = v_inbox s -> (rfin s = true -> rfin s' = true) -> (ss_ok (v_ss s) -> ss_ok (v_ss s')) ->
-  devs err p s p' s'.
+  devs ib err p s p' s'.
 Proof.
   intros H Hp Hi Hr Hss. destruct (plain_facts evs Hp) as (F1 & F2 & F3). exists evs.
   split; [exact H|]. split; [apply F3|]. split; [exists []; rewrite Hi; reflexivity|].
   split; [exact Hr|]. rewrite F1, F2. split; [discriminate|]. split; [discriminate|exact Hss].
 Qed.
 
-(* "s' is reached from s by data events, outside process_all_incoming_messages" *)
-Definition D0 (s s' : vsock) : Prop := devs false 0 s 0 s'.
-
-Lemma D0_refl s : D0 s s.
-Proof. apply devs_refl. Qed.
-Lemma D0_trans a b c : D0 a b -> D0 b c -> D0 a c.
-Proof. apply devs_trans. Qed.
-Lemma D0_svs s s' : svs s s' -> D0 s s'.
-Proof. apply devs_svs. Qed.
+(* a plain event *)
+Lemma D0_one e (s s' : vsock) :
+  dview_of 0 s' = dapply (dview_of 0 s) e -> plainb e = true ->
+  v_inbox s' = v_inbox s -> (rfin s = true -> rfin s' = true) -> (ss_ok (v_ss s) -> ss_ok (v_ss s')) ->
+  D0 s s'.
+Proof.
+  intros H Hp Hi Hr Hss ib. apply (devs_plain ib false [e]); auto.
+Qed.
 
 (* ------------------------------------------------------------------ the two sending loops *)
 Lemma recovery_loop_ev h mss0 : forall items (s : vsock) st,
@@ -165,10 +164,8 @@ Proof.
   destruct (pop_mtu_probe (v_segs s1) sq) as [segs' popped] eqn:Epop.
   destruct popped; cbn [stp]; [|exact H1].
   eapply D0_trans; [exact H1|].
-  apply (devs_one false (EvPopProbe sq)).
+  apply (D0_one (EvPopProbe sq)).
   - unfold dview_of; vsimpl. cbn [dapply x_segs]. rewrite Epop. reflexivity.
-  - exact I.
-  - reflexivity.
   - reflexivity.
   - vsimpl. reflexivity.
   - unfold rfin; vsimpl. auto.
@@ -239,7 +236,7 @@ Lemma split_ev (s : vsock) :
 Proof.
   intro Hok. unfold split_tx_queue_into_segments.
   destruct (_ =? 0).
-  { cbn [stp]. apply (devs_one false (EvTxFlag ToRegisterIfEmpty)); try reflexivity; try exact I.
+  { cbn [stp]. apply (D0_one (EvTxFlag ToRegisterIfEmpty)); try reflexivity.
     - unfold rfin; vsimpl; auto.
     - vsimpl; auto. }
   match goal with |- context [is_remote_fin_or_later (v_state ?S)] => set (s1 := S) end.
@@ -249,7 +246,7 @@ Proof.
     assert (Hlen : ring tx1 = ring (v_tx s)).
     { unfold grow in Eg. destruct (_ <=? _); injection Eg as <- _; reflexivity. }
     assert (Hg : D0 s (set_tx s tx1)).
-    { apply (devs_one false (EvGrow (o_tx_max (v_opts s)))); try reflexivity; try exact I.
+    { apply (D0_one (EvGrow (o_tx_max (v_opts s)))); try reflexivity.
       - unfold dview_of; vsimpl. cbn [dapply x_tx]. rewrite Eg. reflexivity.
       - unfold rfin; vsimpl; auto.
       - vsimpl; auto. }
@@ -257,7 +254,7 @@ Proof.
     - destruct (wake_writer tx1) as [tx2 w] eqn:Ew.
       split; [|split; [unfold add_wakes; vsimpl; reflexivity|]].
       + eapply D0_trans; [exact Hg|].
-        apply (devs_one false (EvTxFlag ToWakeWriter)); try reflexivity; try exact I.
+        apply (D0_one (EvTxFlag ToWakeWriter)); try reflexivity.
         * unfold dview_of, add_wakes; vsimpl. cbn [dapply x_tx is_flag_tx_op tx_step]. rewrite Ew. reflexivity.
         * unfold rfin, add_wakes; vsimpl; auto.
         * unfold add_wakes; vsimpl; auto.
@@ -288,7 +285,7 @@ Proof.
     destruct (segment_loop_ev _ _ _ _ _ _ _ _ _ (dview_of 0 s2) Hok2 eq_refl eq_refl Hrem2 Esl)
       as (Hok' & evs & Hrun & Hpl).
     cbn [stp]. eapply D0_trans; [exact Hd2|].
-    apply (devs_plain false evs).
+    intro ib. apply (devs_plain ib false evs).
     - rewrite Hrun. unfold dview_of, set_xsegs; vsimpl. reflexivity.
     - exact Hpl.
     - vsimpl. reflexivity.
@@ -297,8 +294,8 @@ Proof.
   destruct pe as [rewind_to payload_size| |].
   - apply Hcont.
     + eapply D0_trans; [exact Hd1|].
-      apply (devs_one false (EvPopExpired (timer_expired (v_t_retransmit s1) (v_now s1))
-                                         (o_mtu_probe_max_retx (v_opts s1)))); try reflexivity; try exact I.
+      apply (D0_one (EvPopExpired (timer_expired (v_t_retransmit s1) (v_now s1))
+                                  (o_mtu_probe_max_retx (v_opts s1)))); try reflexivity.
       * destruct (seq_gt _ _); unfold dview_of; vsimpl; cbn [dapply x_segs]; rewrite Epe; reflexivity.
       * destruct (seq_gt _ _); vsimpl; reflexivity.
       * destruct (seq_gt _ _); unfold rfin; vsimpl; auto.
